@@ -1,3 +1,4 @@
+import Mav.Proofs.CrcDetect
 import Mav.Proofs.Crc
 import Mav.Proofs.Reader
 /-
@@ -85,5 +86,20 @@ theorem gate_unknown_id (cfg : RCfg) (d : UInt32 → Option Codec) (hd : cfg.dia
     (f : Frame) (id : UInt32) (p : Bytes) (hm : f.msg = .raw id p) (hc : d id = none) :
     dialectGate cfg f = .frame f := by
   simp [dialectGate, hd, hm, hc]
+
+/-- **C02 (a damaged frame is never delivered).** Two frames with the same carried checksum whose CRC-covered bytes
+    (length, header, message id, payload) differ in exactly one byte — any number of bits of it — cannot both pass: if the
+    original carried the right checksum, the damaged one is reported as `crcWrong`. (Damage to the checksum bytes themselves
+    is the trivial case: the carried value changes while the computed one does not.) -/
+theorem one_damaged_byte_refused (cfg : RCfg) (d : UInt32 → Option Codec) (hd : cfg.dialect = some d) (ho : cfg.specWindow = false)
+    (f f' : Frame) (id : UInt32) (p p' : Bytes) (hm : f.msg = .raw id p) (hm' : f'.msg = .raw id p') (c : Codec) (hc : d id = some c)
+    (pre post : Bytes) (x x' : UInt8) (hx : x ≠ x')
+    (hin : crcInput f = pre ++ x :: post) (hin' : crcInput f' = pre ++ x' :: post)
+    (hsame : f'.crc = f.crc) (hgood : f.crc.toBitVec = crc16 (crcInput f ++ [c.crcExtra])) :
+    dialectGate cfg f' = .perr .crcWrong := by
+  apply (gate_iff cfg d hd ho f' id p' hm' c hc).2
+  rw [hsame, hgood, hin, hin']
+  have := Spec.crc16_one_byte pre (post ++ [c.crcExtra]) x x' hx
+  simpa [List.append_assoc] using this
 
 end Mav.C02
